@@ -148,11 +148,13 @@ impl<'a> Transaction<'a> {
         ((self.loaded_vals & self.mask) as isize, self.loaded_vals)
     }
 
-    /// Returns true if the values passed in matches the previous wrap-around of the Transaction
+    /// Returns true if the value passed in is the previous wrap-around of the Transaction
+    /// or lies behind it: a reader position that far back (a stream that has just been
+    /// added behind the writers) means full as well, not only the exact match
     #[inline(always)]
     pub fn matches_previous(&self, val: usize) -> bool {
         let wrap = self.mask.wrapping_add(1);
-        rm_tag(self.loaded_vals.wrapping_sub(wrap)) == val
+        !past(rm_tag(self.loaded_vals.wrapping_sub(wrap)), val).1
     }
 
     #[inline(always)]
